@@ -145,7 +145,7 @@ def delete_rule(ctx, rid, title="delete is last: table, gather/sync completed be
                 after = g.reachable(start=d, skip_labels=("exc",), feasible=feas) - {d}
                 for a in sorted(after):
                     an = g.nodes[a]
-                    calls = node_calls(an)
+                    calls = [c_ for c_ in node_calls(an) if not (isinstance(c_.func, ast.Name) and c_.func.id == "setattr" and len(c_.args) == 3 and not any(isinstance(x, ast.Call) for a_ in c_.args for x in ast.walk(a_)))]
                     if calls and an.kind not in ("exit", "raise"):
                         r1.bad(ctx.finding(rid, f, an.stmt if an.stmt is not None else f.node,
                                            "`%s` may raise after the crop was already deleted by `%s` (%s): the reap fails and the crop is gone, so a corrected retry cannot deliver the results" % (an.text()[:60], dn.text()[:60], vtxt),
